@@ -8,16 +8,16 @@ namespace Zvbi.Search
 set_option maxRecDepth 100000
 
 /-- a fold whose first found page returns 0 and whose second returns 1 (both judged in the initial context) -/
-theorem runPos_zero_one (exec : Exec) (c : Cache) (x1 x2 : Pos) (rest : List Pos) (s : SearchSt) (e1 e2 : Entry)
-    (h1 : lookupX c x1.1 x1.2.1 = some e1) (hc1 : codeFwd exec s x1.1.toNat e1 x1.2.2 = 0)
-    (h2 : lookupX c x2.1 x2.2.1 = some e2) (hc2 : codeFwd exec s x2.1.toNat e2 x2.2.2 = 1) :
-    ∃ sf, runPos (pageFwd exec) c (x1 :: x2 :: rest) s = (1, sf) ∧ sf.pgPgno = x2.1.toNat ∧ sf.pgSubno = e2.subno := by
+theorem runPos_zero_one (sh : Shape) (exec : Exec) (c : Cache) (x1 x2 : Pos) (rest : List Pos) (s : SearchSt) (e1 e2 : Entry)
+    (h1 : lookupX c x1.1 x1.2.1 = some e1) (hc1 : codeFwd sh exec s x1.1.toNat e1 x1.2.2 = 0)
+    (h2 : lookupX c x2.1 x2.2.1 = some e2) (hc2 : codeFwd sh exec s x2.1.toNat e2 x2.2.2 = 1) :
+    ∃ sf, runPos (pageFwd sh exec) c (x1 :: x2 :: rest) s = (1, sf) ∧ sf.pgPgno = x2.1.toNat ∧ sf.pgSubno = e2.subno := by
   obtain ⟨p1, sub1, w1⟩ := x1
   obtain ⟨p2, sub2, w2⟩ := x2
   simp only at h1 hc1 h2 hc2
   rw [runPos_cons, h1]
   simp only
-  cases hcb1 : pageFwd exec s p1.toNat e1 w1 with
+  cases hcb1 : pageFwd sh exec s p1.toNat e1 w1 with
   | mk r1 s1 =>
     have hr1 : r1 = 0 := by rw [← hc1, ← pageFwd_fst, hcb1]
     subst hr1
@@ -25,9 +25,9 @@ theorem runPos_zero_one (exec : Exec) (c : Cache) (x1 x2 : Pos) (rest : List Pos
     simp only [ne_eq, not_true_eq_false, ite_false]
     rw [runPos_cons, h2]
     simp only
-    cases hcb2 : pageFwd exec s1 p2.toNat e2 w2 with
+    cases hcb2 : pageFwd sh exec s1 p2.toNat e2 w2 with
     | mk r2 s2 =>
-      have hr2 : r2 = 1 := by rw [← hc2, ← codeFwd_frozen exec hfz, ← pageFwd_fst, hcb2]
+      have hr2 : r2 = 1 := by rw [← hc2, ← codeFwd_frozen sh exec hfz, ← pageFwd_fst, hcb2]
       subst hr2
       obtain ⟨_, ms, me, _, hs2⟩ := pageFwd_one hcb2
       refine ⟨s2, by simp, ?_, ?_⟩
@@ -39,16 +39,16 @@ theorem searchNext_zero_one (sh : Shape) (exec : Exec) (c : Cache) (s : SearchSt
     (hne : c.nCached ≠ 0) (hp : PgOk (prepare sh s d).startPgno) (hok : StartOk sh c (prepare sh s d).startPgno)
     (x1 x2 : Pos) (rest : List Pos) (e1 e2 : Entry)
     (hL : walkPositions sh c (prepare sh s d).startPgno (prepare sh s d).startSubno 1 = x1 :: x2 :: rest)
-    (h1 : lookupX c x1.1 x1.2.1 = some e1) (hc1 : codeFwd exec (prepare sh s d) x1.1.toNat e1 x1.2.2 = 0)
-    (h2 : lookupX c x2.1 x2.2.1 = some e2) (hc2 : codeFwd exec (prepare sh s d) x2.1.toNat e2 x2.2.2 = 1) :
+    (h1 : lookupX c x1.1 x1.2.1 = some e1) (hc1 : codeFwd sh exec (prepare sh s d) x1.1.toNat e1 x1.2.2 = 0)
+    (h2 : lookupX c x2.1 x2.2.1 = some e2) (hc2 : codeFwd sh exec (prepare sh s d) x2.1.toNat e2 x2.2.2 = 1) :
     (searchNext sh exec walkFuel c s d).res = .ret SEARCH_SUCCESS ∧
     (searchNext sh exec walkFuel c s d).st.pgPgno = x2.1.toNat ∧
     (searchNext sh exec walkFuel c s d).st.pgSubno = e2.subno := by
   have hres := searchNext_factors sh exec c s d hne hp hok
   have hst := searchNext_st sh exec c s d hne hp hok
-  have hcb : callbackOf exec d = pageFwd exec := by unfold callbackOf; simp [hd]
+  have hcb : callbackOf sh exec d = pageFwd sh exec := by unfold callbackOf; simp [hd]
   have hdir : dirOf d = 1 := by unfold dirOf; simp [hd]
-  obtain ⟨sf, hrun, hpg, hsub⟩ := runPos_zero_one exec c x1 x2 rest (prepare sh s d) e1 e2 h1 hc1 h2 hc2
+  obtain ⟨sf, hrun, hpg, hsub⟩ := runPos_zero_one sh exec c x1 x2 rest (prepare sh s d) e1 e2 h1 hc1 h2 hc2
   rw [hcb, hdir, hL, hrun] at hres hst
   simp only at hst
   rw [if_neg (by decide)] at hst
